@@ -160,9 +160,20 @@ func convCaseP(cc *pj.ConvCase, unknown, primed bool) core.Case {
 				caps := []int{0, 1, len(out) / 2, len(out)}
 				if pi == nil {
 					for _, cp := range caps {
-						buf := make([]byte, 0, cp)
+						// the buffer is the front of an arena whose rest is 0xAA: nothing may be written behind the capacity
+						arena := make([]byte, cp+64)
+						for i := cp; i < len(arena); i++ {
+							arena[i] = 0xAA
+						}
+						buf := arena[:0:cp]
 						var e2 error
 						pi2 := core.Catch(func() { e2 = cv.DoInto(context.Background(), c.In, in, &buf) })
+						for i := cp; i < len(arena); i++ {
+							if arena[i] != 0xAA {
+								add("p2j.DoInto", "writes-beyond-capacity", "cap=%d: byte cap+%d overwritten (%x)", cp, i-cp, arena[i])
+								break
+							}
+						}
 						if pi2 != nil {
 							add("p2j.DoInto", "panic@"+pi2.Site+":"+core.PanicClass(pi2.Val), "cap=%d panic: %s\n%s", cp, pi2.Val, pi2.Stack)
 							break
